@@ -51,13 +51,16 @@ def analysisVerdict (spec : Json → Json → String) (inp impl : Json) : Verdic
   let updFromStar := (src.search (·.isKind "UpdateStmt")).any (fun u =>
     !(u.get "FromClause").items.isEmpty &&
     (u.get "ReturningList").items.any (fun rt => Q.hasStarRef (rt.get "Val") && ((rt.get "Val").get "Fields").stringItems.isEmpty))
+  -- a set-returning function in FROM contributes no relation in sqlc: its column cannot be named
+  let rangeFunc := !(src.search (·.isKind "RangeFunction")).isEmpty
   { model := run.model, compare := !walkPanic && !reparseRejected impl, frag := if walkPanic then "out:walk-panic" else if reparseRejected impl then "out:reparse-rejected" else "in",
     specImpl := spec inp impl,
     trig := run.trig ++ (if ml then ["scopeLeak", "nestedLevel"] else []) ++ (if repeated then ["repeatedPlaceholder"] else []) ++
       (if exprCol then ["exprColumn"] else []) ++ (if needsQ then ["needsQuoting"] else []) ++
       (if resShared then ["reservedShared"] else []) ++ (if lenDrop then ["lengthDropped"] else []) ++
       (if coalesceAlias then ["coalesceAlias"] else []) ++ (if aliasList then ["aliasListIgnored"] else []) ++
-      (if unknownQual then ["unknownQualifier"] else []) ++ (if updFromStar then ["updateFromStar"] else []),
+      (if unknownQual then ["unknownQualifier"] else []) ++ (if updFromStar then ["updateFromStar"] else []) ++
+      (if rangeFunc then ["funcFromItem"] else []),
     implProj := some (implProjection impl) }
 
 def c02 (kind : String) (inp impl : Json) : Verdict :=
